@@ -206,6 +206,10 @@ class MediaRequestBase(RequestHandlerBase):
             traf.trun.flags |= mp4.TrackFragmentRunBox.data_offset_present
 
         tfdt.base_media_decode_time += origin_time
+        if mode == 'live':
+            # the live timeline counts from zero at availabilityStartTime,
+            # the stored decode times from the first decode time of the file
+            tfdt.base_media_decode_time -= representation.start_time
 
         # Update the sequenceNumber field in the MovieFragmentHeader
         # box
